@@ -7,7 +7,7 @@ from vf.core.result import Res
 from vf.gen.ir import E, num, source, sym, walk
 from vf.gen.programs import Gen
 from vf.gen.twins import NoTwin, expand_control
-from vf.progcheck import Accept, Reject, Unspec, blocks_equal, model_of, run_ir
+from vf.progcheck import same_output, Accept, Reject, Unspec, blocks_equal, model_of, run_ir
 
 LEVEL = "exploration"
 RULE = (
@@ -244,7 +244,7 @@ def check_program(res: Res, p: dict) -> None:
             res.count("twin_" + k, v)
         if r0.ok and r1.ok:
             res.count("twin_judged")
-            if [(a, bytes(b)) for a, b in r0.blocks] != [(a, bytes(b)) for a, b in r1.blocks]:
+            if not same_output(r0.blocks, r1.blocks):
                 d = blocks_equal([(a, b) for a, b in r1.blocks], r0.blocks)
                 res.violate(mech_hint or "differs-from-hand-expansion", f"output differs from the hand-expanded twin: {d}", dict(wit, twin_src=src1))
                 res.case(src, True)
